@@ -141,7 +141,8 @@ Proof.
   destruct (choose_filename fs (a_files st) fp) as [target|e|]; cbn [rbind]; try discriminate.
   destruct (get_or_load fs (a_files st) target) as [[file ov1]|e|] eqn:El; cbn [rbind]; try discriminate.
   rewrite Hren.
-  destruct (gfp_rename fp Hgood Hren) as [_ Hnew]. destruct (pf_new fp) as [newname|]; [|contradiction]. clear Hnew.
+  destruct (gfp_rename fp Hgood Hren) as [_ Hnew]. unfold knew. destruct (pf_new fp) as [rawnew|]; [|contradiction]. clear Hnew.
+  cbn [option_map]. generalize (canon rawnew) as newname. intros newname.
   unfold move_out at 1.
   set (stay := {| content := []; existed := existed file; deleted := true; perm := None |}).
   set (tmp := {| content := content file; existed := false; deleted := false; perm := perm file |}).
